@@ -98,4 +98,10 @@ theorem C07_sig_resplit_is_stale (p ts' T now : Int) (hp : 1000 ≤ p) (hsplit :
 example : validSignature "s" 1000 ⟨"u", "x", "900", true, true, some 900, true⟩ = true := by decide
 example : validSignature "s" 1000 ⟨"u", "x", "600", true, true, some 600, true⟩ = false := by decide
 
+/-- Tie (T1): `validSignature` reads the clock itself, at the moment of the check (`Now` … `Sub`), and the middleware calls
+it per request inside the handler closure — the five-minute window is never anchored at start-up. -/
+theorem C07_skeleton_validSignature :
+    Sso.Generated.skel_auth_validSignature = ["if{", "return", "}", "call:Parse", "if{", "return", "}", "call:DecodeString", "if{", "return", "}", "call:ParseInt", "if{", "return", "}", "call:Unix", "call:Now", "call:Sub", "if{", "return", "}", "call:redirectURLSignature", "call:Equal", "return"] ∧
+    Sso.Generated.skel_auth_validateSignature = ["func{", "call:ParseForm", "if{", "call:Error", "call:ErrorResponse", "return", "}", "call:Get", "call:Get", "call:Get", "call:validSignature", "if{", "call:ErrorResponse", "return", "}", "call:f", "}", "return"] := by decide
+
 end Sso.AuthN
